@@ -111,7 +111,8 @@ inductive Res (α : Type)
   | err (e : RtErr) (σ : St)
   /-- robot moved into a wall: terminates the program by specification (a `panic!` in the Rust) -/
   | terminate (why : String) (σ : St)
-  | panic (site : String) (σ : St)
+  /-- a Rust panic: the process aborts; only what was already displayed matters -/
+  | panic (site : String) (out : List Str)
   | fuel
 deriving Inhabited
 
@@ -126,7 +127,7 @@ deriving Inhabited
 @[simp] theorem Res.bind_ok {α β} (a : α) (k : α → Res β) : (Res.ok a).bind k = k a := rfl
 @[simp] theorem Res.bind_err {α β} (e σ) (k : α → Res β) : (Res.err e σ : Res α).bind k = .err e σ := rfl
 @[simp] theorem Res.bind_terminate {α β} (w σ) (k : α → Res β) : (Res.terminate w σ : Res α).bind k = .terminate w σ := rfl
-@[simp] theorem Res.bind_panic {α β} (s σ) (k : α → Res β) : (Res.panic s σ : Res α).bind k = .panic s σ := rfl
+@[simp] theorem Res.bind_panic {α β} (s o) (k : α → Res β) : (Res.panic s o : Res α).bind k = .panic s o := rfl
 @[simp] theorem Res.bind_fuel {α β} (k : α → Res β) : (Res.fuel : Res α).bind k = .fuel := rfl
 
 /-! ## Environment (src: env.rs) -/
@@ -144,26 +145,26 @@ def lookupVar (σ : St) (x : Str) : Option Value :=
 /-- src: `Env::define`; `activate()` indexes `venv[len-1]`: a panic primitive when no context exists -/
 def define (σ : St) (x : Str) (v : Value) : Res St :=
   match σ.scopes with
-  | [] => .panic "env.activate" σ
+  | [] => .panic "env.activate" σ.out
   | fr :: rest => .ok { σ with scopes := fr.set x v :: rest }
 
 /-- src: `Env::remove` -/
 def removeVar (σ : St) (x : Str) : Res (Option Value × St) :=
   match σ.scopes with
-  | [] => .panic "env.activate" σ
+  | [] => .panic "env.activate" σ.out
   | fr :: rest => .ok (fr.get? x, { σ with scopes := fr.erase x :: rest })
 
 /-- src: `Env::create_nested_layer` -/
 def createNested (σ : St) : Res St :=
   match σ.scopes with
-  | [] => .panic "env.activate" σ
+  | [] => .panic "env.activate" σ.out
   | fr :: rest => .ok { σ with scopes := fr :: fr :: rest }
 
 /-- src: `Env::flatten_nested_layer` -/
 def flattenNested (σ : St) : Res St :=
   match σ.scopes with
-  | [] => .panic "env.scrape" σ
-  | _ :: [] => .panic "env.activate" σ
+  | [] => .panic "env.scrape" σ.out
+  | _ :: [] => .panic "env.activate" σ.out
   | fr :: _ :: rest => .ok { σ with scopes := fr :: rest }
 
 /-- one statement starts: src (hook) `verif::tick` at the top of `Interpreter::stmt` -/
